@@ -297,7 +297,8 @@ partial def seqSteps (ω : Oracle) (n : Nat) (idx : Nat) (model impl : Pool) (v 
     -- Shift moves rows whole: every row of the result is a row of the source or the all-nil filler row
     match op, derived with
     | .shift .., some out =>
-      if out.keys == src.keys && out.rect? && src.rect? then
+      -- (quadratic in the row count: the rare frames of many thousand rows are left to the C19 specification)
+      if out.keys == src.keys && out.rect? && src.rect? && src.nrows ≤ 1500 then
         let srcRows := src.rows
         if !(out.rows.all (fun r => srcRows.contains r || r.all (· == Cell.nil))) then
           v := { v with c01 := firstFail v.c01 s!"{tag}:rows-torn-apart" }
